@@ -1500,12 +1500,12 @@ impl<'comments> Formatter<'comments> {
         let left_precedence = left.binop_precedence();
         let right_precedence = right.binop_precedence();
 
-        let mut left = self.expr(left, false);
+        let mut left = self.wrap_operand(left);
         if left.fits(MAX_COLUMNS) {
             left = left.force_unbroken()
         }
 
-        let mut right = self.expr(right, false);
+        let mut right = self.wrap_operand(right);
         if right.fits(MAX_COLUMNS) {
             right = right.force_unbroken()
         }
@@ -2221,9 +2221,27 @@ impl<'comments> Formatter<'comments> {
         }
     }
 
+    // An operand that only parses as such between delimiters: blocks keep their braces, and
+    // 'fail' / 'todo' (which would otherwise swallow or cut what follows) get parentheses.
+    fn wrap_operand<'a>(&mut self, expr: &'a UntypedExpr) -> Document<'a> {
+        match expr {
+            UntypedExpr::ErrorTerm { .. }
+            | UntypedExpr::Trace {
+                kind: TraceKind::Error,
+                ..
+            }
+            | UntypedExpr::Trace {
+                kind: TraceKind::Todo,
+                ..
+            } => "(".to_doc().append(self.expr(expr, false)).append(")"),
+            _ => self.wrap_expr(expr),
+        }
+    }
+
     fn wrap_unary_op<'a>(&mut self, expr: &'a UntypedExpr) -> Document<'a> {
         match expr {
-            UntypedExpr::Trace {
+            UntypedExpr::ErrorTerm { .. }
+            | UntypedExpr::Trace {
                 kind: TraceKind::Error,
                 ..
             }
